@@ -436,3 +436,37 @@ def helper_alias_rules(m, run, key, rows_param='ctrlpts', pu1=True):
     if not deep:
         raise AnalysisError('%s: no in-place deep store found (unknown idiom)' % key)
     return cnt
+
+
+def unit_range_rule(m, run, names, mods=('BSpline', 'abstract', 'NURBS')):
+    """RG1: the rejection of parameters outside [0, 1] (utilities.check_params) applies to shapes with normalised knot vectors only:
+    every evaluation of check_params in the named methods is reached only when `self._kv_normalize` holds (CFG facts on every
+    path, or the preceding operand of the same `and`).  Shapes built with normalize_kv=False have other domains."""
+    from .cfg import CFG
+    n = 0
+    for fi in sorted(m.funcs.values(), key=lambda f: f.key):
+        if fi.mod not in mods or not fi.cls or fi.name not in names:
+            continue
+        calls = [c for c in walk_no_nested(fi.node) if isinstance(c, ast.Call) and norm(c.func).endswith('check_params')]
+        if not calls:
+            continue
+        cfg = CFG(fi.node)
+        for c in calls:
+            n += 1
+            ok = False
+            # same-expression guard: self._kv_normalize and (not) check_params(..)
+            p, child = getattr(c, '_sa_parent', None), c
+            while p is not None and not isinstance(p, ast.stmt):
+                if isinstance(p, ast.BoolOp) and isinstance(p.op, ast.And):
+                    idx = next(i for i, v in enumerate(p.values) if v is child)
+                    if any(norm(v) == 'self._kv_normalize' for v in p.values[:idx]):
+                        ok = True
+                child, p = p, getattr(p, '_sa_parent', None)
+            if not ok:
+                node = cfg.node_of(c)
+                ok = any(pol and norm(e) == 'self._kv_normalize' for e, pol in cfg.facts_at(node))
+            run.ob('RG1.unit-range-check-only-when-normalised', '%s :: %s' % (fi.key, norm(c)[:60]), ok,
+                   'evaluated only under self._kv_normalize' if ok else
+                   'parameters are tested against [0, 1] also for shapes created with normalize_kv=False, whose domain is the range of their own knot vector: '
+                   'valid parameters are rejected', site(fi, c))
+    return n
